@@ -21,7 +21,7 @@ namespace fg = forcegen;
 
 namespace {
 std::string S(double a) { return pbt::str(a); }
-const int KW = 51, LW = 50;   // unit words: role selector, lock-by-default selector (both unused by the mbgen/forcegen decoders)
+const int KW = 51, LW = 50, QW = 49;   // unit words: role selector, lock-by-default selector, query-after-force-op selector (unused by the mbgen/forcegen decoders)
 
 struct ConSpec { int type = 0; int b1 = 0, b2 = 1; Vec3 s1, s2; Real len = 1; int mob = 1, coord = 0; Real speed = 0; bool disabledByDefault = false; };
 const char* conName(int t) { return t == 0 ? "Rod" : t == 1 ? "Ball" : "ConstantSpeed"; }
@@ -192,7 +192,7 @@ void property(const pbt::Tape& t, pbt::Ctx& ctx) {
         const pbt::Seg& seg = t[ui]; pbt::Reader r(seg);
         int cls = r.pick(16); const Stage before = s.getSystemStage();
         if (cls <= 4) {   // ---- force element operation
-            fg::Op op = fg::decodeOp(r, H.el, H.spec); const fg::Element& e = H.el[op.elem]; fg::Vals& v = H.val[op.elem];
+            fg::Op op = fg::decodeOp(r, H.el, H.spec, &H.val); if (op.structured) ctx.label("op-structured-value"); const fg::Element& e = H.el[op.elem]; fg::Vals& v = H.val[op.elem];
             // known finding gravity-exclude-ground-nan (see C38): the call is documented as ignored; excluded by not making it
             if (e.spec.kind == fg::Gravity && op.isParam() && op.what - fg::OpSetA == 3 && op.body == 0 && !op.flag && v.gmag != 0 && ctx.known("gravity-exclude-ground-nan")) {
                 ctx.label("excluded:gravity-exclude-ground-nan"); if (ctx.wantDesc) ctx.desc << " op: (skipped, known finding) " << op.name << "\n"; continue; }
@@ -205,6 +205,9 @@ void property(const pbt::Tape& t, pbt::Ctx& ctx) {
             // is realized to Position or higher; excluded by construction (Position stage invalidated by the harness, history continues)
             if (e.spec.kind == fg::MobilityLinearSpring && op.isParam() && changed && !v.disabled && before >= Stage::Position && ctx.known("mls-stale-cache")) {
                 s.invalidateAllCacheAtOrAbove(Stage::Position); ctx.label("excluded:mls-stale-cache"); }
+            // a quarter of the force operations are queried at once (change -> realize -> compare with nothing in between)
+            if (seg.size() > (size_t)QW && seg[QW] % 4u == 1u) { if (ctx.wantDesc) ctx.desc << " op: query (immediately after the force operation)\n"; ctx.label("op:query-after-force-op");
+                if (!H.query("(query right after " + op.name + ", operation " + std::to_string(nOps) + ")")) return; }
         } else if (cls <= 6) {   // ---- set q and/or u of one mobilizer (documented non-singular domain of its type)
             int b = r.pick(nb); int mode = r.pick(3);
             mbgen::Options o1 = H.opt; o1.only({H.spec.bodies[b].type});
